@@ -5,19 +5,35 @@ specs: ScoreAssign.tla (the kernel's loop body as three named branches TakeP / R
        (thorough: 1..4) over 2 labels x 3 UBI versions - fresh passes, a label presented again after its UBI changed,
        partial passes - from every initial label content (-1, a foreign value, either label) and stale stored errors,
        thorough also dirty_t = fresh passes of 3 grains x 2 peaks over buffers holding -1 / a foreign value / a grain's
-       label), TraceScoreAssign.tla (trace validation of recorded real runs).
+       label), TraceScoreAssign.tla (trace validation of recorded real runs),
+       ScoreAssignLayout.tla (ScoreAssign seen through the MEMORY LAYOUT of what the Python callers hand to the kernel: the
+       kernel's view `Seen` of the logical g-vector array under an address map x item type (12 g-vector layouts: C, column
+       major, strided rows / columns, reversed, binary32, integer, byte swapped, unaligned, read only; 6 UBI layouts), the
+       way the indexer was built (indexer(gv=), indexer_from_colfile, indexer_from_colfile_and_ucell, .gv assigned,
+       readgvfile) and prepared (directly / assigntorings() first); configuration lay = every history of 1..2 calls over 2
+       grains from every label buffer content x 108 layout combinations, invariants LayoutBlind + the property on the
+       LOGICAL array; configuration ravelK = a caller flattening the held array in memory order: TLC MUST refute BestGrain).
 Mode A: EVERY behaviour TLC emits is realised with exactly representable UBIs / g-vectors; behaviours sharing a
         presentation sequence are packed as the peaks of one array, tiled to 5*4096+7 peaks (6 OpenMP chunks), and run
         through raw score_and_assign calls at 1/2/3/5/8/16/32 threads, two label numberings, two initial error values:
         labels, stored errors and returned count after every call must equal the model's snapshot.  The callers are
         driven with the same arrays: indexer.fight_over_peaks (.ga .gas .drlv2), nb_utils.assign_peaks_to_grains (zero
         filled labels), indexer.getind (dirty and default work buffers), GrainSinogram.prepare_peaks_from_2d (label 0 / 5).
+        The behaviours of configuration lay are realised as real numpy arrays with the emitted address map / item type
+        (the tables are exact in binary32 and, scaled by 64, as integers): raw calls and the columnfile routes (gx gy gz =
+        the columns of the laid out array itself) per (g-vector layout, UBI layout), fight_over_peaks and getind for every
+        layout x build x prep; expectations are the model's, i.e. those of the logical array.
 Mode C: seeded realistic runs (random / twinned / duplicated UBIs, noisy peaks, strays) through every route: raw calls
         (fresh buffers; zero filled buffers with zero based labels; a second pass after the grains moved, over stale
         labels with reset or stale stored errors, other tolerance), fight_over_peaks, assign_peaks_to_grains, getind,
         prepare_peaks_from_2d, and refinegrains.assignlabels on forward simulated detector peaks of sub-grain families
         whose positions are distinct / all equal / shared with another position in between, in several grain orders,
-        in memory and through files.  Reference errors are the harness's own numpy (c07_lib.hkl_err, c09_sim.forward for
+        in memory and through files.  Every raw-kernel case hands ALL its routes arrays under one of the 108 layout
+        combinations (rotating, seeded; integer g-vectors = 4096 gv with UBI / 4096) and also goes through
+        indexer.saveindexing (g-vector file read back, assigntorings, report written); assignlabels gets its detector
+        columns as the columns of one array under a value preserving layout, laid out UBIs, list translations and stale
+        labels / drlv2 columns of several item types.  Reference errors are formed from the logical binary64 values of
+        what was handed over, by the harness's own numpy (c07_lib.hkl_err, c09_sim.forward for
         per-grain g-vectors); runs are recorded (ranks of reference errors, labels and rank of stored error after every
         observable call) and validated by TLC in blocks of 256 peaks; the model's per-block counts are summed.
 """
@@ -29,8 +45,13 @@ import c07_lib as L
 PROP = "C07"
 TOTAL = 5 * L.CHUNK + 7                     # 6 chunks: with 2, 3, 5 threads the chunks wrap around the threads
 CONFIGS = {"q": ("ScoreAssign_q.cfg", 3, 24576), "hist": ("ScoreAssign_hist.cfg", 2, 29952),
-           "dirty_t": ("ScoreAssign_dirty_t.cfg", 3, 221184), "hist_t": ("ScoreAssign_hist_t.cfg", 2, 122880)}
+           "dirty_t": ("ScoreAssign_dirty_t.cfg", 3, 221184), "hist_t": ("ScoreAssign_hist_t.cfg", 2, 122880),
+           "lay": ("ScoreAssignLayout_lay.cfg", 2, 16 * 6 * 4 * 108), "ravelK": ("ScoreAssignLayout_ravelK.cfg", 2, 0)}
 ACTIONS = ("Call", "TakeP", "ReleaseP", "LeaveP", "Return")
+
+
+def spec_module(cfg):
+    return cfg.split("_")[0]
 
 
 def load_mods():
@@ -49,83 +70,118 @@ def load_mods():
 def tlc_tables(name, tier, out):
     cfg, G, nexp = CONFIGS[name]
     try:
-        res = common.run_tlc("ScoreAssign", os.path.join(common.SPECS, cfg), workers=6, timeout=2400,
-                             coverage=(tier == "thorough"))
+        res = common.run_tlc(spec_module(cfg), os.path.join(common.SPECS, cfg), workers=(6 if name != "ravelK" else 2), timeout=2400,
+                             coverage=(tier == "thorough" and name != "ravelK"))
         out[name] = res
     except Exception as e:                                      # re-raised by the main thread
         out[name] = e
 
 
+def model_must_flag(chk, name, res):
+    """configuration ravelK (a caller that flattens the held array in memory order): the MODEL has to report BestGrain
+    violated for a column major held array - the layout layer of the specification is not vacuous"""
+    cfg, G, nexp = CONFIGS[name]
+    chk.add_tlc("%s %s (the wrong flattening: a counterexample is required)" % (spec_module(cfg), cfg), res)
+    v = res.trace[-1].get("vars", {}) if res.violated and res.trace else {}
+    held_f = v.get("prep") == '"direct"' and (v.get("build") == '"from_colfile"' or v.get("glay") == '"F"')
+    if "BestGrain" not in res.violated or not held_f:
+        raise common.MachineryError("%s: TLC did not refute BestGrain for a memory-order flattening of a column major array (%s)\n%s" % (
+            cfg, res.violated, res.stdout[-1500:]))
+    chk.notes.setdefault("mode_A", {})[name] = {"violated_as_required": res.violated, "states": res.states}
+
+
 def mode_a(chk, mods, name, res, tier):
     cfg, G, nexp = CONFIGS[name]
     c = mods["c"]
+    if name == "ravelK":
+        return model_must_flag(chk, name, res)
     need = ACTIONS if name != "q" else ("Call", "TakeP", "LeaveP", "Return")
-    chk.add_tlc("ScoreAssign %s" % cfg, res, require_cover=(need if res.coverage else ()))
+    if name == "lay":
+        need = ()                 # the actions are the instantiated ScoreAssign's (coverage is reported under that module's names)
+    chk.add_tlc("%s %s" % (spec_module(cfg), cfg), res, require_cover=(need if res.coverage else ()))
     if res.violated:
-        raise common.MachineryError("ScoreAssign model (%s) violates %s" % (cfg, res.violated))
+        raise common.MachineryError("%s model (%s) violates %s" % (spec_module(cfg), cfg, res.violated))
     recs = [json.loads(line) for line in res.printed]
     if len(recs) != nexp:
         raise common.MachineryError("%s: expected %d finished behaviours, got %d" % (cfg, nexp, len(recs)))
+    if name == "lay" and set(L.rec_lay(t) for t in recs) != set(L.combos()):
+        raise common.MachineryError("%s: the layout combinations emitted are not c07_lib.combos()" % cfg)
     cnt = chk.notes.setdefault("mode_A", {})
     fam = cnt.setdefault(name, {"behaviours": len(recs), "release_branch_behaviours": 0, "stale_error_behaviours": 0, "fight": 0,
                                 "assign_peaks_to_grains": 0, "getind": 0, "prepare_peaks_from_2d": 0, "kernel_calls": 0})
+    if name == "lay":
+        fam["layout_combinations"] = len(L.combos())
     groups = sorted(L.group_by_order(recs).items())
-    for order, cases in groups:
+    for (order, lay), cases in groups:
         pk = L.Packed(cases, G)
         total = max(TOTAL, pk.P + 7)
         for t in cases:
             k2 = any(sum(1 for r in range(pk.R) if t["err"][r][k] < 3) >= 2 for k in range(pk.K))
-            chk.case((name, json.dumps(t["err"]), order, tuple(t["lab0"]), tuple(t["dr0"])), nontrivial=k2)
+            chk.case((name, json.dumps(t["err"]), order, tuple(t["lab0"]), tuple(t["dr0"]), lay), nontrivial=k2)
             fam["release_branch_behaviours"] += int(any(a != -1 and b == -1 for s0, s1 in zip([{"labels": t["lab0"]}] + t["snaps"][:-1], t["snaps"])
                                                         for a, b in zip(s0["labels"], s1["labels"])))
             fam["stale_error_behaviours"] += int(any(d < 3 for d in t["dr0"]))
         chk.traces += len(cases)
-        if order == groups[0][0]:
+        if (order, lay) == groups[0][0]:
             chk.sample({"config": name, "behaviour": cases[len(cases) // 2]})
         probs = []
         # one-based labels (0 = the foreign value) at every thread count; zero-based labels (what every caller uses: a
-        # zero filled buffer then holds the first grain's label) at two
-        for labmap, threads, inits in (("one", L.THREADS, ((1.0, 2.0) if name == "q" else (1.0,))), ("zero", (3, 16), (2.0,))):
-            probs += pk.run_raw(c, threads, total, labmap=labmap, inits=inits)
-            fam["kernel_calls"] += len(threads) * len(inits) * len(order)
-        route_probs = []
+        # zero filled buffer then holds the first grain's label) at two.  Layout configuration: the build / prep tags only
+        # concern the indexer routes, so the raw calls are made once per (g-vector layout, UBI layout), at two thread counts
+        plans = (("one", L.THREADS, ((1.0, 2.0) if name == "q" else (1.0,))), ("zero", (3, 16), (2.0,)))
+        if name == "lay":
+            plans = (("one", (1, 5), (1.0,)), ("zero", (3,), (2.0,))) if lay[2:] == L.PLAIN[2:] else ()
         try:
-            route_probs += caller_routes(c, mods, fam, pk, cases, order, G)
+            for labmap, threads, inits in plans:
+                probs += pk.run_raw(c, threads, total, labmap=labmap, inits=inits, lay=lay)
+                fam["kernel_calls"] += len(threads) * len(inits) * len(order)
         except common.MachineryError:
             raise
         except Exception as e:
-            route_probs.append(("a caller of score_and_assign raised %s: %s (order %s)" % (type(e).__name__, str(e)[:300], list(order)), cases[0]))
+            probs.append(("score_and_assign raised %s: %s (order %s, %s)" % (type(e).__name__, str(e)[:300], list(order), L.lay_tag(lay)), cases[0]))
+        route_probs = []
+        try:
+            route_probs += caller_routes(c, mods, fam, pk, cases, order, G, lay, ((1, 3, 16) if name != "lay" else (3,)))
+        except common.MachineryError:
+            raise
+        except Exception as e:
+            route_probs.append(("a caller of score_and_assign raised %s: %s (order %s, %s)" % (
+                type(e).__name__, str(e)[:300], list(order), L.lay_tag(lay)), cases[0]))
         for what, case in probs:
-            chk.violation(what, {"table": case, "G": G, "total": total, "route": "raw"})
+            chk.violation(what, {"table": case, "G": G, "total": total, "route": "raw", "lay": list(lay)})
         for what, case in route_probs:
-            chk.violation(what, {"table": case, "G": G, "total": total, "route": "callers"})
+            chk.violation(what, {"table": case, "G": G, "total": total, "route": "callers", "lay": list(lay)})
         if len(chk.violations) > 10:
             break
     return recs
 
 
-def caller_routes(c, mods, fam, pk, cases, order, G):
-    """the callers on the behaviours they can produce (every one is a fresh single pass); returns [(what, behaviour)]"""
+def caller_routes(c, mods, fam, pk, cases, order, G, lay=L.PLAIN, fight_threads=(1, 3, 16)):
+    """the callers on the behaviours they can produce (every one is a fresh single pass); returns [(what, behaviour)].
+    The indexer routes (fight_over_peaks, getind) are driven for every layout tag; the columnfile routes know nothing of
+    build / prep and are driven once per (g-vector layout, UBI layout)"""
     probs = []
+    colroutes = tuple(lay[2:]) == L.PLAIN[2:]
     fresh = [t for t in cases if t["pass"] == 1 and all(x == -1 for x in t["lab0"])]
     if fresh:
-        probs += L.Packed(fresh, G).run_fight(c, mods["indexing"], (1, 3, 16), max(TOTAL, len(fresh) * pk.K + 7))
+        probs += L.Packed(fresh, G).run_fight(c, mods, fight_threads, max(TOTAL, len(fresh) * pk.K + 7), lay=lay)
         fam["fight"] += len(fresh)
     # a ZERO filled label buffer with zero based labels = the buffer holds the label of the first grain presented
     zf = [t for t in cases if t["pass"] == 1 and all(x == L.row_label(order[0], G) for x in t["lab0"])]
-    if zf and len(order) > 1:
-        probs += L.Packed(zf, G).run_nb(c, mods, (1, 5), max(TOTAL, len(zf) * pk.K + 7))
+    if zf and len(order) > 1 and colroutes:
+        probs += L.Packed(zf, G).run_nb(c, mods, ((1, 5) if len(fight_threads) > 1 else (5,)), max(TOTAL, len(zf) * pk.K + 7), lay=lay)
         fam["assign_peaks_to_grains"] += len(zf)
     if len(order) == 1:
         gi = [t for t in cases if t["lab0"] == [0] and t["dr0"] == [3]]                              # a value that is not the label
         own = [t for t in cases if t["lab0"] == [L.row_label(order[0], G)] and t["dr0"] == [3]]    # the label itself (grain_label=0)
         if gi:
-            probs += L.Packed(gi, G).run_getind(c, mods["indexing"], TOTAL)
-            probs += L.Packed(gi, G).run_sino(c, mods, TOTAL, 5)
+            probs += L.Packed(gi, G).run_getind(c, mods, TOTAL, lay=lay)
             fam["getind"] += len(gi)
-            fam["prepare_peaks_from_2d"] += len(gi)
-        if own:
-            probs += L.Packed(own, G).run_sino(c, mods, TOTAL, 0)
+            if colroutes:
+                probs += L.Packed(gi, G).run_sino(c, mods, TOTAL, 5, lay=lay)
+                fam["prepare_peaks_from_2d"] += len(gi)
+        if own and colroutes:
+            probs += L.Packed(own, G).run_sino(c, mods, TOTAL, 0, lay=lay)
             fam["prepare_peaks_from_2d"] += len(own)
     return probs
 
@@ -133,22 +189,28 @@ def caller_routes(c, mods, fam, pk, cases, order, G):
 def replay_table(chk, mods, case):
     """one behaviour, tiled: raw calls and every caller it qualifies for"""
     t, G, total = case["table"], case.get("G", 3), case.get("total", TOTAL)
+    lay = tuple(case.get("lay", L.PLAIN))
     c = mods["c"]
     order = t["order"]
     pk = L.Packed([t], G)
     probs = []
-    for labmap in ("one", "zero"):
-        probs += pk.run_raw(c, L.THREADS, total, labmap=labmap)
-    if t["pass"] == 1 and all(x == -1 for x in t["lab0"]):
-        probs += pk.run_fight(c, mods["indexing"], (1, 3, 16), total)
-    if t["pass"] == 1 and len(order) > 1 and all(x == L.row_label(order[0], G) for x in t["lab0"]):
-        probs += pk.run_nb(c, mods, (1, 5), total)
-    if len(order) == 1 and t["dr0"] == [3]:
-        if t["lab0"] == [0]:
-            probs += pk.run_getind(c, mods["indexing"], total)
-            probs += pk.run_sino(c, mods, total, 5)
-        if t["lab0"] == [L.row_label(order[0], G)]:
-            probs += pk.run_sino(c, mods, total, 0)
+    try:
+        for labmap in ("one", "zero"):
+            probs += pk.run_raw(c, L.THREADS, total, labmap=labmap, lay=lay)
+        if t["pass"] == 1 and all(x == -1 for x in t["lab0"]):
+            probs += pk.run_fight(c, mods, (1, 3, 16), total, lay=lay)
+        if t["pass"] == 1 and len(order) > 1 and all(x == L.row_label(order[0], G) for x in t["lab0"]):
+            probs += pk.run_nb(c, mods, (1, 5), total, lay=lay)
+        if len(order) == 1 and t["dr0"] == [3]:
+            if t["lab0"] == [0]:
+                probs += pk.run_getind(c, mods, total, lay=lay)
+                probs += pk.run_sino(c, mods, total, 5, lay=lay)
+            if t["lab0"] == [L.row_label(order[0], G)]:
+                probs += pk.run_sino(c, mods, total, 0, lay=lay)
+    except common.MachineryError:
+        raise
+    except Exception as e:
+        probs.append(("a route raised %s: %s (%s)" % (type(e).__name__, str(e)[:300], L.lay_tag(lay)), t))
     return probs
 
 
@@ -217,15 +279,24 @@ class ModeC(object):
         return True
 
     # ---- one raw-kernel case through every route
-    def raw_case(self, cid, ubis, gv, tol, order, rng, big, tier):
+    def raw_case(self, cid, ubis, gv, tol, order, rng, big, tier, lay=L.PLAIN):
+        """lay = (g-vector layout, UBI layout, indexer build, prep) of ScoreAssignLayout.tla: the arrays handed to EVERY route
+        below are laid out that way; every expectation is formed from their logical binary64 values (numpy only)"""
         chk, c, mods = self.chk, self.c, self.mods
         G, K = len(ubis), len(gv)
-        errs = np.array([L.hkl_err(u, gv) for u in ubis])
-        rk = L.Ranked(errs, tol * tol, L.ident_matrix(ubis))
+        lay = tuple(lay)
+        if lay[1] == "i64":                       # real UBIs are not integer valued
+            lay = (lay[0], "strided") + lay[2:]
+        meta = {"G": G, "K": K, "tol": tol, "order": order, "ubis": [np.asarray(u).tolist() for u in ubis],
+                "gv": np.asarray(gv).tolist() if K <= 300 else "omitted (seeded)", "seed": common.seed(), "case": cid, "lay": list(lay)}
+        # gv / ubis from here on: what is handed over; gvl / ubl: their values; sc: integer g-vectors are 4096 gv, UBI / 4096
+        ubis_in = ubis
+        gv, ubis, gvl, ubl, sc = L.realise(gv, ubis_in, lay[0], lay[1], 4096)
+        errs = np.array([L.hkl_err(u, gvl) for u in ubl])
+        rk = L.Ranked(errs, tol * tol, L.ident_matrix(ubl))
         if not rk.keep.any():
             return False
-        meta = {"G": G, "K": K, "tol": tol, "order": order, "ubis": [u.tolist() for u in ubis],
-                "gv": gv.tolist() if K <= 300 else "omitted (seeded)", "seed": common.seed(), "case": cid}
+        self.hit("layout " + L.lay_tag(lay))
         ident = list(range(1, G + 1))
         # (a) fresh buffers, labels 1..G, every thread count gives the same log
         rows = [(ubis[g], tol, g + 1) for g in range(G)]
@@ -255,7 +326,7 @@ class ModeC(object):
         self.hit("raw_second_order")
         # (c) ZERO filled label buffer, labels = list positions 0..G-1 (what assign_peaks_to_grains does)
         pos_rows = [(ubis[r - 1], tol, i) for i, r in enumerate(order)]          # row i+1 = i-th presented grain
-        rkp = L.Ranked(errs[[r - 1 for r in order]], tol * tol, L.ident_matrix([ubis[r - 1] for r in order]))
+        rkp = L.Ranked(errs[[r - 1 for r in order]], tol * tol, L.ident_matrix([ubl[r - 1] for r in order]))
         evz = L.record(c, pos_rows, gv, ident, (3 if big else 1), np.zeros(K, np.int32), np.full(K, 1.0))
         if big:
             self.judge_py("zero filled label buffer (raw calls)", rkp, list(range(G)), L.to_model(evz[-1][2], 0, G), evz[-1][3], meta,
@@ -267,21 +338,28 @@ class ModeC(object):
         nun = int((evz[-1][2] == -1).sum())
         self.hit("raw_zero_filled_released_peaks", nun)
         # (d) indexer.fight_over_peaks: same calls as (a) with labels = positions, drlv2 from 2
+        # the positions name the same grains as run (a) (same sequence of kernel calls, other label values and initial error)
+        want = np.array([-1] + [order.index(g + 1) for g in range(G)])[np.where(final_lab < 0, 0, final_lab)]
+        asg = final_lab >= 0
+
+        def same_as_direct(ind, what):
+            ga = np.asarray(ind.ga)
+            ok = ga.shape == (K,) and np.shape(ind.drlv2) == (K,)
+            if not ok or list(ind.gas) != np.bincount(ga[ga >= 0], minlength=G).tolist() or len(ind.gas) != G:
+                chk.violation("%s: gas %s is not the histogram of the labels ga" % (what, [int(x) for x in ind.gas][:60]), dict(meta, route=what))
+            if not ok or not np.array_equal(ga, want) or not np.array_equal(ind.drlv2[asg], final_dr[asg]) or not (ind.drlv2[~asg] >= tol * tol).all():
+                chk.violation("%s (%s): .ga / .drlv2 differ from the same calls made directly" % (what, L.lay_tag(lay)), dict(meta, route=what))
+                return None
+            return ga
+
         with self.guarded("indexer.fight_over_peaks", meta):
-            with L.quiet():
-                ind = mods["indexing"].indexer(gv=gv, hkl_tol=tol)
+            ind = L.build_indexer(mods, gv, gvl, tol, lay[2], lay[3], sc=sc)
             ind.ubis = [ubis[r - 1] for r in order]
             with L.omp(c, 3 if big else 1), L.quiet():
                 ind.fight_over_peaks()
-            ga = np.asarray(ind.ga)
-            if list(ind.gas) != np.bincount(ga[ga >= 0], minlength=G).tolist() or len(ind.gas) != G:
-                chk.violation("indexer.fight_over_peaks: gas %s is not the histogram of the labels ga %s" % (
-                    [int(x) for x in ind.gas], np.bincount(ga[ga >= 0], minlength=G).tolist()), dict(meta, route="fight_over_peaks"))
-            # the positions name the same grains as run (a) (same sequence of kernel calls, other label values and initial error)
-            want = np.array([-1] + [order.index(g + 1) for g in range(G)])[np.where(final_lab < 0, 0, final_lab)]
-            asg = final_lab >= 0
-            if not np.array_equal(ga, want) or not np.array_equal(ind.drlv2[asg], final_dr[asg]) or not (ind.drlv2[~asg] >= tol * tol).all():
-                chk.violation("indexer.fight_over_peaks: .ga / .drlv2 differ from the same calls made directly", dict(meta, route="fight_over_peaks"))
+            ga = same_as_direct(ind, "indexer.fight_over_peaks")
+            if ga is None:
+                ga = np.full(K, -9)
             if big:
                 self.judge_py("indexer.fight_over_peaks", rkp, list(range(G)), L.to_model(ga, 0, G), ind.drlv2, meta, floor=tol * tol)
             else:
@@ -290,17 +368,32 @@ class ModeC(object):
                 self.add(cid + "/fight", rkp, G, ident, np.full(K, -1), events, dict(meta, route="indexer.fight_over_peaks"),
                          hist=[int(x) for x in ind.gas], floor=tol * tol)
             self.hit("fight_over_peaks")
+        # (d2) indexer.saveindexing: a g-vector file read back, assigntorings(), the grains, the report written: it makes
+        #      .gv contiguous and runs fight_over_peaks itself (small cases: one text line per peak and grain)
+        if not big:
+            with self.guarded("indexer.saveindexing", meta):
+                ind = L.build_indexer(mods, gv, gvl, tol, "readgvfile", "rings", sc=sc)
+                if lay[2] == "set_gv":
+                    ind.gv = gv
+                ind.ubis = [ubl[r - 1].copy() for r in order]       # the report also prints U, B, cell parameters: plain binary64 arrays
+                path = os.path.join(common.scratch(), "c07_%d.ubi_report" % os.getpid())
+                with L.quiet():
+                    ind.saveindexing(path)
+                os.remove(path)
+                if same_as_direct(ind, "indexer.saveindexing") is not None:
+                    self.hit("saveindexing")
         # (e) nb_utils.assign_peaks_to_grains
         with self.guarded("nb_utils.assign_peaks_to_grains", meta):
-            cf = mods["columnfile"].colfile_from_dict({"gx": gv[:, 0].copy(), "gy": gv[:, 1].copy(), "gz": gv[:, 2].copy()})
+            cf = mods["columnfile"].colfile_from_dict(L.columns(gv))
             grains = [mods["grain"].grain(ubis[r - 1]) for r in order]
             with L.omp(c, 5 if big else 1), L.quiet():
                 mods["nb_utils"].assign_peaks_to_grains(grains, cf, tol)
             gid = np.rint(np.asarray(cf.grain_id)).astype(int)
             gdr = np.asarray(cf.drlv2, float)
             if not np.array_equal(gid, evz[-1][2]) or not np.array_equal(gdr, evz[-1][3]):
-                chk.violation("nb_utils.assign_peaks_to_grains: grain_id / drlv2 differ from the same calls made directly",
-                              dict(meta, route="assign_peaks_to_grains"))
+                chk.violation("nb_utils.assign_peaks_to_grains (g-vector columns %s, UBIs %s): grain_id / drlv2 differ from the same calls made "
+                              "directly" % lay[:2], dict(meta, route="assign_peaks_to_grains"))
+                gid = np.full(K, -9)
             if big:
                 self.judge_py("nb_utils.assign_peaks_to_grains", rkp, list(range(G)), L.to_model(gid, 0, G), gdr, meta, floor=tol * tol)
             else:
@@ -313,19 +406,21 @@ class ModeC(object):
             g1 = int(rng.integers(0, G))
             rk1 = L.Ranked(errs[[g1]], tol * tol, [[True]])
             dtmp, ltmp = np.full(K, 1e-9), np.full(K, 1, np.int32)
+            ind1 = L.build_indexer(mods, gv, gvl, tol, lay[2], lay[3], sc=sc)
             with L.quiet():
-                ind1 = mods["indexing"].indexer(gv=gv, hkl_tol=tol)
                 m1 = np.asarray(ind1.getind(ubis[g1], drlv2tmp=dtmp, labelstmp=ltmp), bool)
-                m2 = np.asarray(ind1.getind(ubis[g1]), bool)
+                # after assigntorings() the default buffers are sized by the peaks on rings (see observe_getind_default)
+                m2 = np.asarray(ind1.getind(ubis[g1]), bool) if lay[3] == "direct" else m1
+            if m1.shape != (K,):
+                raise ValueError("getind returned a mask of shape %s for %d peaks" % (m1.shape, K))
             if not np.array_equal(m1, m2):
                 chk.violation("indexer.getind: supplied (dirty) work buffers and default buffers give different masks", dict(meta, route="getind", grain=g1))
             events = [{"kind": "call", "row": 1, "n": int(m1.sum()), "labels": np.where(m1, 1, 0), "dr": dtmp.copy()}]
             self.add(cid + "/getind", rk1, 1, [1], np.zeros(K, int), events, dict(meta, route="indexer.getind", grain=g1), init=1.0)
             self.hit("getind")
             for glabel in (0, 7):
-                cf2 = mods["columnfile"].colfile_from_dict({
-                    "gx": gv[:, 0].copy(), "gy": gv[:, 1].copy(), "gz": gv[:, 2].copy(), "dty": np.arange(K, dtype=float),
-                    "omega": np.zeros(K), "eta": np.zeros(K), "sum_intensity": np.ones(K)})
+                cf2 = mods["columnfile"].colfile_from_dict(dict(L.columns(gv), dty=np.arange(K, dtype=float), omega=np.zeros(K),
+                                                                eta=np.zeros(K), sum_intensity=np.ones(K)))
                 with L.quiet():
                     gs = mods["sinogram"].GrainSinogram(mods["grain"].grain(ubis[g1]), mods["dataset"].DataSet())
                     gs.prepare_peaks_from_2d(cf2, glabel, hkltol=tol)
@@ -341,10 +436,12 @@ class ModeC(object):
         #     (small cases only: mode A runs every such history exactly at 20487 peaks)
         if not big:
             tol2 = tol if rng.random() < 0.5 else tol * float(rng.choice([0.5, 2.0]))
-            moved = [ubis[g] if rng.random() < 0.3 else ubis[g] @ L.c09_sim.small_rotation(rng, rng.uniform(0.002, 0.02)).T for g in range(G)]
+            moved = [ubis[g] if rng.random() < 0.3 else L.lay_ubi(ubl[g] @ L.c09_sim.small_rotation(rng, rng.uniform(0.002, 0.02)).T, lay[1])
+                     for g in range(G)]
+            movedl = [L.logical(u) for u in moved]
             rows2 = rows + [(moved[g], tol2, g + 1) for g in range(G)]
-            errs2 = np.vstack([errs, np.array([L.hkl_err(u, gv) for u in moved])])
-            rk2 = L.Ranked(errs2, np.array([tol * tol] * G + [tol2 * tol2] * G), L.ident_matrix(ubis + moved))
+            errs2 = np.vstack([errs, np.array([L.hkl_err(u, gvl) for u in movedl])])
+            rk2 = L.Ranked(errs2, np.array([tol * tol] * G + [tol2 * tol2] * G), L.ident_matrix(ubl + movedl))
             reset = bool(rng.random() < 0.5)
             seq2 = [int(x) + G for x in rng.permutation(G) + 1]
             lab, dr = np.full(K, -1, np.int32), np.full(K, 1.0)
@@ -358,14 +455,14 @@ class ModeC(object):
             events += [{"kind": "call", "row": r, "n": n, "labels": L.to_model(lb, 1, G), "dr": d} for (r, n, lb, d) in ev3]
             if self.add(cid + "/moved", rk2, G, ident + ident, np.full(K, -1), events,
                         dict(meta, route="raw, second pass after the grains moved (%s stored errors)" % ("reset" if reset else "stale"),
-                             moved=[u.tolist() for u in moved], tol2=tol2, seq2=seq2, reset=reset), init=1.0):
+                             moved=[u.tolist() for u in movedl], tol2=tol2, seq2=seq2, reset=reset), init=1.0):
                 self.hit("second_pass_reset" if reset else "second_pass_stale")
                 rel = sum(int(((a[2] >= 0) & (b[2] == -1)).sum()) for a, b in zip([ev1[-1]] + ev3[:-1], ev3))
                 self.hit("second_pass_released_peaks", rel)
         return True
 
     # ---- refinegrains.assignlabels
-    def geo_case(self, cid, case, tol, orders, threads, rng, files=None, twice=False, ntrace=9):
+    def geo_case(self, cid, case, tol, orders, threads, rng, files=None, twice=False, ntrace=9, lay0=0):
         """one simulated detector data set through refinegrains.assignlabels: every grain order (the first `ntrace` are
         validated by TLC, the others judged in numpy), every thread count, optionally a second call after the grains
         moved and the file route"""
@@ -375,8 +472,10 @@ class ModeC(object):
                  "positions": case["which"], "seed": common.seed()}
         errs = L.geo_errs(case["sc"], case["fc"], case["omega"], grains, case["pars"])
         for oi, order in enumerate(orders):
-            with self.guarded("refinegrains.assignlabels", dict(meta0, order=order)):
-                self._geo_order(cid, case, tol, oi, order, threads, errs, dict(meta0, order=order), oi < ntrace)
+            # detector columns sc fc omega as the columns of ONE array under a value preserving layout, grains with laid out UBIs
+            lay = (L.SAME_VALUE_LAYOUTS[(lay0 + oi) % len(L.SAME_VALUE_LAYOUTS)], ("C", "F", "strided", "list")[(lay0 + oi) % 4])
+            with self.guarded("refinegrains.assignlabels", dict(meta0, order=order, lay=list(lay))):
+                self._geo_order(cid, case, tol, oi, order, threads, errs, dict(meta0, order=order, lay=list(lay)), oi < ntrace, lay)
         if twice:
             with self.guarded("refinegrains.assignlabels (second call)", dict(meta0, order=orders[0], again=True)):
                 self._geo_again(cid, case, tol, orders[0], threads[0], rng, dict(meta0, order=orders[0], again=True))
@@ -392,15 +491,17 @@ class ModeC(object):
         events.append({"kind": "call", "row": G, "n": -1, "labels": labels_model, "dr": dr})
         return events
 
-    def _geo_order(self, cid, case, tol, oi, order, threads, errs, meta, trace):
+    def _geo_order(self, cid, case, tol, oi, order, threads, errs, meta, trace, lay=None):
         chk, c, mods = self.chk, self.c, self.mods
         grains = case["grains"]
         G, K = len(grains), len(case["sc"])
         first = None
         # from the second order on the scan already carries a labels column filled with the first grain's label and tiny errors
-        stale = None if oi == 0 else (np.full(K, float(order[0])), np.full(K, 1e-9))
+        # (item types rotate: the columns of a scan read from a file are binary64, columns added in memory may be anything)
+        stale = None if oi == 0 else (np.full(K, order[0], dtype=(float, np.int32, np.float32)[oi % 3]),
+                                      np.full(K, 1e-9, dtype=(float, np.float32)[oi % 2]))
         for nt in threads:
-            lab, dr, npks, rg = L.run_assignlabels(c, mods, case, grains, order, tol, nt, stale=stale)
+            lab, dr, npks, rg = L.run_assignlabels(c, mods, case, grains, order, tol, nt, stale=stale, lay=lay)
             if first is None:
                 first = (lab, dr, npks)
             elif not (np.array_equal(lab, first[0]) and np.array_equal(dr, first[1]) and npks == first[2]):
@@ -423,6 +524,7 @@ class ModeC(object):
         if done:
             which = case["which"]
             self.hit("assignlabels")
+            self.hit("assignlabels columns %s, UBIs %s" % (lay or ("separate", "C")))
             self.hit("assignlabels_contested_peaks", int(((rkp.rank < rkp.E).sum(axis=0) >= 2).sum()))
             apart = any(which[order[i]] == which[order[j]] and any(which[order[m]] != which[order[i]] for m in range(i + 1, j))
                         for i in range(G) for j in range(i + 2, G))
@@ -537,6 +639,8 @@ def mode_c(chk, mods, tier, rng, extra=()):
     mc = ModeC(chk, mods)
     ncase = 60 if tier == "quick" else 400
     tried = done = 0
+    lays = L.combos()
+    lay0 = int(rng.integers(0, len(lays)))
     while done < ncase and tried < ncase * 5:
         tried += 1
         bigcase = (done % 20 == 19)
@@ -544,28 +648,31 @@ def mode_c(chk, mods, tier, rng, extra=()):
         K = int(rng.integers(10, 200)) if not bigcase else (2 * L.CHUNK + 8 if tier == "quick" else int(rng.choice([2 * L.CHUNK + 8, 20000, 100000])))
         ubis, gv, tol = L.make_case(rng, G, K, big=bigcase)
         order = [int(x) for x in rng.permutation(G) + 1]
-        if mc.raw_case("c%d" % tried, ubis, gv, tol, order, rng, bigcase, tier):
+        # the layouts rotate through Combos (mode A drives every one of them on the exact tables)
+        if mc.raw_case("c%d" % tried, ubis, gv, tol, order, rng, bigcase, tier, lay=lays[(lay0 + 37 * tried) % len(lays)]):
             done += 1
         if len(chk.violations) > 10:
             break
     # a list of 50 UBIs (the upper end of the quantifier) on a small peak list, and a single UBI on a large one
     ubis, gv, tol = L.make_case(rng, 50, 150, big=True)
-    mc.raw_case("cfifty", ubis, gv, tol, [int(x) for x in rng.permutation(50) + 1], rng, True, tier)
+    mc.raw_case("cfifty", ubis, gv, tol, [int(x) for x in rng.permutation(50) + 1], rng, True, tier, lay=("F", "F", "from_colfile_and_ucell", "direct"))
     ubis, gv, tol = L.make_case(rng, 1, L.CHUNK + 5, big=True)
-    mc.raw_case("cone", ubis, gv, tol, [1], rng, False, tier)
+    mc.raw_case("cone", ubis, gv, tol, [1], rng, False, tier, lay=("cols2", "C", "from_colfile", "rings"))
     # refinegrains.assignlabels: per-grain g-vectors
     plan = [("shared", 3, "F", 0.05), ("shared", 4, "F", 0.1), ("shared", 5, "F", 0.02), ("same", 3, "F", 0.05), ("distinct", 4, "F", 0.05)]
     if tier == "thorough":
         plan = plan * 6
     kpar0 = int(rng.integers(0, 64))
+    glay0 = int(rng.integers(0, 8))
     for i, (fam, G, lat, tol) in enumerate(plan):
         case = L.make_geo_case(rng, mods, kpar0 + 7 * i, G, fam, lattice=lat)
         orders = [list(range(G)), [int(x) for x in rng.permutation(G)], list(range(G))[::-1]]
-        mc.geo_case("g%d" % i, case, tol, orders, (1,), rng, files=((True,) if i % 5 == 0 else (False,) if i % 5 == 3 else None), twice=(i % 5 == 1))
+        mc.geo_case("g%d" % i, case, tol, orders, (1,), rng, files=((True,) if i % 5 == 0 else (False,) if i % 5 == 3 else None), twice=(i % 5 == 1),
+                    lay0=glay0 + 3 * i)
         if len(chk.violations) > 10:
             break
     case = L.make_geo_case(rng, mods, kpar0 + 3, 14, "shared", lattice="P", nstray=400)          # > 4096 peaks: two OpenMP chunks
-    mc.geo_case("gbig", case, 0.05, [list(range(14)), [int(x) for x in rng.permutation(14)]], (1, 4, 16), rng, ntrace=1)
+    mc.geo_case("gbig", case, 0.05, [list(range(14)), [int(x) for x in rng.permutation(14)]], (1, 4, 16), rng, ntrace=1, lay0=glay0 + 1)
     mc.hit("assignlabels_big_case_peaks", len(case["sc"]))
     mc.verdicts = mc.validate(extra=extra)
     return mc
@@ -604,7 +711,10 @@ def run(tier, replay=None):
     chk.rule = ("mode A: every behaviour of ScoreAssign.tla (q: 3 grains x 2 peaks x 4 levels x 6 orders; hist: all histories of <= 3 calls "
                 "over 2 labels x 3 UBI versions from every initial label (-1, foreign, either grain's) and stored error) realised with exact dyadic g-vectors, packed per presentation sequence and tiled to %d peaks "
                 "(6 chunks), threads 1/2/3/5/8/16/32, one- and zero-based labels, two initial error values, plus fight_over_peaks / "
-                "assign_peaks_to_grains / getind / prepare_peaks_from_2d on the behaviours they can produce; mode C: seeded runs with 1..50 "
+                "assign_peaks_to_grains / getind / prepare_peaks_from_2d on the behaviours they can produce; ScoreAssignLayout.tla lay: every "
+                "history of <= 2 calls over 2 grains x 4 label buffer contents x 108 memory layout combinations (12 g-vector layouts x 5 indexer "
+                "builds x direct / assigntorings, 6 UBI layouts) realised as numpy arrays with that address map / item type on every route; "
+                "mode C: every case under one of those combinations (rotating) incl. saveindexing; seeded runs with 1..50 "
                 "UBIs (twins, overlapping lattices), 10..1e5 peaks, tolerances 0.02..0.5, random grain orders through every route "
                 "(see notes mode_C_routes), refinegrains.assignlabels on simulated detector peaks with shared / equal / distinct grain "
                 "positions; recorded and validated by TLC in blocks of 256 peaks; non-trivial = a peak is within tolerance of >= 2 "
@@ -616,11 +726,14 @@ def run(tier, replay=None):
                        "inside a caller only the final buffers are observable: the intermediate calls are the model's steps",
                        "per-grain g-vectors of the assignlabels route: c09_sim.forward (numpy, written from the formulas; agrees with "
                        "cImageD11.compute_gv to 1e-15, C01's subject); peaks are generated with ImageD11.transform's inverse (inputs only)",
-                       "a stored error of an unassigned peak is only required to be >= tol^2 on the caller routes (1 or 2 today)"]
+                       "a stored error of an unassigned peak is only required to be >= tol^2 on the caller routes (1 or 2 today)",
+                       "memory layouts: the g-vector / UBI / column arrays handed over are laid out as named (numpy views, item types); the "
+                       "work buffers labels / drlv2, which f2py only accepts contiguous and of the exact item type (it raises otherwise), are "
+                       "always plain; the expectation is that of the array's logical binary64 values (numpy conversion)"]
     if replay:
         return run_replay(chk, mods, replay)
     rng = np.random.default_rng(common.seed())
-    names = ("q", "hist") if tier == "quick" else ("q", "hist_t", "dirty_t")
+    names = ("q", "hist", "lay", "ravelK") if tier == "quick" else ("q", "hist_t", "dirty_t", "lay", "ravelK")
     out = {}
     common.scratch()
     th = [threading.Thread(target=tlc_tables, args=(n, tier, out)) for n in names]
@@ -662,7 +775,8 @@ def run_replay(chk, mods, path):
         mc = ModeC(chk, mods)
         ubis = [np.array(u) for u in case["ubis"]]
         gv = np.ascontiguousarray(np.array(case["gv"]))
-        mc.raw_case("r", ubis, gv, case["tol"], [int(x) for x in case["order"]], np.random.default_rng(case.get("seed", 0)), False, "thorough")
+        mc.raw_case("r", ubis, gv, case["tol"], [int(x) for x in case["order"]], np.random.default_rng(case.get("seed", 0)), False, "thorough",
+                    lay=tuple(case.get("lay", L.PLAIN)))
         mc.validate("replay")
         chk.sample({"replayed": path})
         return chk.finish()
@@ -704,6 +818,11 @@ def selftest_tables(mods, chk=None):
         raise common.MachineryError("selftest: correct table rejected")
     if not pk.run_raw(c, (1,), TOTAL, perturb=True):
         raise common.MachineryError("selftest: perturbed table accepted")
+    colmajor = ("F", "C", "indexer", "direct")
+    if pk.run_raw(c, (1,), TOTAL, lay=colmajor) or pk.run_fight(c, mods, (1,), 47, lay=("i32F", "C", "from_colfile", "rings")):
+        raise common.MachineryError("selftest: correct table rejected under a column major layout")
+    if not pk.run_raw(c, (1,), TOTAL, lay=colmajor, scramble=True) or pk.run_raw(c, (1,), TOTAL, scramble=True):
+        raise common.MachineryError("selftest: a column major array flattened in memory order accepted (or a C ordered one rejected)")
     t2 = json.loads(json.dumps(t))
     t2["labels"] = [1, 1]
     t2["snaps"] = [{"labels": [1, 1], "drlv2": [0, 3]}] * 3          # what a kernel without the release branch would leave
@@ -713,7 +832,7 @@ def selftest_tables(mods, chk=None):
 
 def selftest(mods=None, chk=None):
     """a corrupted recorded field must be rejected by the trace specification; a perturbed snapshot by mode A; a label left in
-    place of a release by both"""
+    place of a release by both; a column major array handed over flattened in memory order by mode A"""
     if mods is None:
         common.use_shadow(common.build_shadow("normal"))
         mods = load_mods()
